@@ -708,6 +708,83 @@ def rule_r6(prog, res) -> None:
         raise AnalysisError("C09.R6: no parallel Patch construction found (anchor vanished)")
 
 
+# same-name parameters that are deliberately not handed on, one line of reason each
+FORWARD_EXCEPTIONS = {
+    ("yaw.utils.parallel", "comm"): "rank helpers (on_root / on_worker / get_size) are only used with the world communicator, which is also their default",
+}
+
+
+def rule_r7(prog, res) -> None:
+    """options reach the component that implements them: when a function takes a parameter `p` and calls an
+    in-package function / constructor that has a parameter of the same name WITH A DEFAULT, it passes it on —
+    otherwise the callee silently runs with its default (e.g. overwrite=True deleting a cache the caller asked to
+    keep, in the one pipeline variant that dropped the argument). Exceptions are listed with their reason."""
+    n = 0
+    for fi in prog.funcs:
+        fparams = set(fi.param_names()) - {"self", "cls"}
+        if not fparams:
+            continue
+        for c in calls_in(fi):
+            if any(isinstance(x, ast.Starred) for x in c.args) or any(k.arg is None for k in c.keywords):
+                continue
+            try:
+                tg = prog.resolve_call(fi, c)
+            except Exception:  # noqa: BLE001
+                continue
+            callees = []  # (label, positional names, {defaulted name: default expression})
+            for g in tg.funcs():
+                a = g.node.args
+                dflt = {p_.arg: d for p_, d in zip(a.args[len(a.args) - len(a.defaults) :], a.defaults)}
+                dflt.update({p_.arg: d for p_, d in zip(a.kwonlyargs, a.kw_defaults) if d is not None})
+                callees.append((g.qualname, [p_.arg for p_ in a.args if p_.arg not in ("self", "cls")], dflt))
+            for k in tg.classes():
+                m = prog.find_method(k, "__init__")
+                if m is not None:
+                    a = m.node.args
+                    dflt = {p_.arg: d for p_, d in zip(a.args[len(a.args) - len(a.defaults) :], a.defaults)}
+                    dflt.update({p_.arg: d for p_, d in zip(a.kwonlyargs, a.kw_defaults) if d is not None})
+                    callees.append((m.qualname, [p_.arg for p_ in a.args if p_.arg not in ("self", "cls")], dflt))
+                elif any("dataclass" in d_ for d_ in k.decorators()) if hasattr(k, "decorators") else any("dataclass" in unparse(d_) for d_ in k.node.decorator_list):
+                    # synthesised constructor of a dataclass: fields in order, defaults from `= value` / field(default=…)
+                    pos_, dflt = [], {}
+                    for st in k.node.body:
+                        if isinstance(st, ast.AnnAssign) and isinstance(st.target, ast.Name):
+                            v = st.value
+                            kw_only = isinstance(v, ast.Call) and (dotted(v.func) or "").split(".")[-1] == "field" and isinstance(kwarg(v, "kw_only"), ast.Constant) and kwarg(v, "kw_only").value is True
+                            if not kw_only:
+                                pos_.append(st.target.id)
+                            if v is not None:
+                                if isinstance(v, ast.Call) and (dotted(v.func) or "").split(".")[-1] == "field":
+                                    d_ = kwarg(v, "default") or kwarg(v, "default_factory")
+                                    if d_ is not None:
+                                        dflt[st.target.id] = d_
+                                else:
+                                    dflt[st.target.id] = v
+                    callees.append((k.name, pos_, dflt))
+            for gname, pos, dflt in callees:
+                shared = fparams & set(dflt)
+                if not shared:
+                    continue
+                given = {k.arg for k in c.keywords} | set(pos[: len(c.args)])
+                for p_ in sorted(shared):
+                    n += 1
+                    res.touch(fi)
+                    if p_ in given:
+                        res.ok("C09.R7", res.site(fi, f"{gname}({p_}=…)"), "forwarded", nontrivial=False)
+                    elif (fi.module.name, p_) in FORWARD_EXCEPTIONS:
+                        res.ok("C09.R7", res.site(fi, f"{gname}() without {p_}"), "listed exception: " + FORWARD_EXCEPTIONS[(fi.module.name, p_)], nontrivial=False)
+                    else:
+                        res.violation(
+                            "C09.R7",
+                            fi,
+                            c,
+                            f"{fi.name} takes `{p_}` but calls {gname} without it: the callee silently uses its default `{p_}={unparse(dflt[p_])[:30]}` instead of what the caller asked for",
+                            key_extra=f"option-dropped-{fi.qualname}-{p_}",
+                        )
+    if n < 20:
+        raise AnalysisError(f"C09.R7: only {n} same-name parameter hand-overs found, minimum 20")
+
+
 RULES = [
     ("C09.R1", rule_r1, QUICK),
     ("C09.R2", rule_r2, QUICK),
@@ -715,4 +792,5 @@ RULES = [
     ("C09.R4", rule_r4, QUICK),
     ("C09.R5", rule_r5, QUICK),
     ("C09.R6", rule_r6, QUICK),
+    ("C09.R7", rule_r7, QUICK),
 ]
